@@ -54,6 +54,12 @@ static std::vector<std::string> run_script(const Script &s, bool concurrent) {
 
 int main(int argc, char **argv) {
   Args a = parse_args(argc, argv);
+  // replay of a transcript mismatch: the same provider, seed, worker and rounds up to the one that differed (schedules are sampled
+  // again; a difference that depends on the provider, the keys or the first-call state shows again, a rare interleaving may not)
+  int replay_rounds = -1;
+  if (!a.replay.empty()) { J j = J::parse(read_file(a.replay)); if (!j || !json_object_get(j.p, "round")) return 0;
+    a.seed = (uint64_t)json_integer_value(json_object_get(j.p, "seed")); a.worker = (int)json_integer_value(json_object_get(j.p, "worker")); a.kv["prov"] = std::to_string((int)json_integer_value(json_object_get(j.p, "prov")));
+    replay_rounds = (int)json_integer_value(json_object_get(j.p, "round")) + 1; if (json_is_true(json_object_get(j.p, "thorough"))) a.tier = "thorough"; }
   int prov = a.kv.count("prov") ? atoi(a.kv["prov"].c_str()) : a.worker % 2;
   set_provider(prov); set_now(1700000000);
   Pool pool = standard_pool();
@@ -77,9 +83,11 @@ int main(int argc, char **argv) {
     PRETOK_EXPIRED.push_back(ref_token(ks, kds[i].alg, h, "{\"sub\":\"t\",\"exp\":1600000000}")); }
   Stats &st = stats();
   int rounds = a.thorough() ? 400 : 5; if (a.kv.count("rounds")) rounds = atoi(a.kv["rounds"].c_str());
+  if (replay_rounds > 0) rounds = std::max(replay_rounds, 3);
   int opsper = a.thorough() ? 40 : 24;
   static const int TC[] = {2, 4, 8, 16};
   for (int round = 0; round < rounds && st.violations.empty(); round++) {
+    if (replay_rounds > 0 && round > 2 && round != replay_rounds - 1) continue;   // replay: the first rounds (cold start) and the one that differed
     Rng rng(a.seed * 7919 + a.worker * 104729 + round);
     int nt = TC[(round + a.worker / 2) % 4];
     std::vector<Script> scripts(nt);
@@ -106,7 +114,7 @@ int main(int argc, char **argv) {
     if (ov > 0) st.nontrivial(mix(mix(a.seed, a.worker), mix(round, prov)));
     for (int t = 0; t < nt; t++) if (got[t] != expect[t]) {
       size_t i = 0; while (i < got[t].size() && i < expect[t].size() && got[t][i] == expect[t][i]) i++;
-      std::string rj = "{\"prov\":" + std::to_string(prov) + ",\"round\":" + std::to_string(round) + ",\"worker\":" + std::to_string(a.worker) + ",\"seed\":" + std::to_string(a.seed) + ",\"threads\":" + std::to_string(nt) + ",\"thread\":" + std::to_string(t) + ",\"step\":" + std::to_string(i) + ",\"concurrent\":" + jstr(i < got[t].size() ? got[t][i].substr(0, 300) : "") + ",\"sequential\":" + jstr(i < expect[t].size() ? expect[t][i].substr(0, 300) : "") + "}";
+      std::string rj = "{\"prov\":" + std::to_string(prov) + ",\"round\":" + std::to_string(round) + ",\"worker\":" + std::to_string(a.worker) + ",\"seed\":" + std::to_string(a.seed) + ",\"thorough\":" + (a.thorough() ? "true" : "false") + ",\"threads\":" + std::to_string(nt) + ",\"thread\":" + std::to_string(t) + ",\"step\":" + std::to_string(i) + ",\"concurrent\":" + jstr(i < got[t].size() ? got[t][i].substr(0, 300) : "") + ",\"sequential\":" + jstr(i < expect[t].size() ? expect[t][i].substr(0, 300) : "") + "}";
       st.violation("C18:concurrent-result-differs-from-sequential:" + std::string(got[t].size() > i ? got[t][i].substr(0, got[t][i].find(':')) : "len"), "a thread obtained a different verdict/token than the same calls made one after another", rj);
       break;
     }
